@@ -92,6 +92,7 @@ var fnames = map[string]string{
 	"absent": "", "quoted": `; filename="file.txt"`, "unquoted2": "; filename=ab", "unquoted1": "; filename=a",
 	"empty": "; filename=", "quoteonly": `; filename="`, "unterminated": `; filename="abc`,
 	"dup": `; filename="a.txt"; filename="b.txt"`, "encoded": `; filename="=?UTF-8?q?f=C3=BCr_dich.txt?="`,
+	"sizeneg": `; filename="f.txt"; size=-5`, "sizehuge": `; filename="f.txt"; size=9223372036854775807`, "sizeok": `; filename="f.txt"; size=7`,
 }
 
 func partText(p Part, depth int, idx int) string {
@@ -178,6 +179,12 @@ func Text(in Input) []byte {
 		b.WriteString("Content-Type: application/pdf\r\n")
 	case "unparsable":
 		b.WriteString("Content-Type: text/plain; =;;\"\r\n")
+	case "plainlq": // the charset value is a lone quote
+		b.WriteString("Content-Type: text/plain; charset=\"\r\n")
+	case "plainqs": // a quoted charset value that begins with a semicolon
+		b.WriteString("Content-Type: text/plain; charset=\";utf-8\"\r\n")
+	case "plainempty":
+		b.WriteString("Content-Type: text/plain; charset=\r\n")
 	case "mixed", "related", "alternative":
 		switch t.Boundary {
 		case "ok":
